@@ -135,8 +135,13 @@ impl<T: Read + Seek> ClassRead for T {
         Ok(buf)
     }
     fn read_u8_vec(&mut self, size: usize) -> Result<Vec<u8>> {
-        let mut vec = std::vec::from_elem(0, size);
-        self.read_exact(&mut vec)?;
+        // `size` comes from a length field of the file: don't allocate that much up front, read at most `size` bytes
+        // and check that they were all there.
+        let mut vec = Vec::new();
+        let read = self.by_ref().take(size as u64).read_to_end(&mut vec)?;
+        if read != size {
+            bail!("failed to fill whole buffer: expected {size} bytes, got only {read}");
+        }
         Ok(vec)
     }
 }
